@@ -112,7 +112,7 @@ theorem cleanTrackerWith_fields (ord : List ReqId) (st : State) :
     (cleanTrackerWith ord st).tracker = st.tracker ∧ (cleanTrackerWith ord st).total = st.total ∧
     (cleanTrackerWith ord st).vd = st.vd ∧ (cleanTrackerWith ord st).de = st.de ∧
     (cleanTrackerWith ord st).db = st.db ∧ (cleanTrackerWith ord st).bounty = st.bounty ∧
-    (cleanTrackerWith ord st).committed = st.committed ∧ (cleanTrackerWith ord st).delayed = st.delayed := by
+    (cleanTrackerWith ord st).delayed = st.delayed := by
   simp [cleanTrackerWith]
 
 /-- with at most one open request per address `CleanTracker` changes nothing -/
@@ -179,7 +179,7 @@ theorem minusFromAddress_fields (st : State) (v d : Addr) (c : Int) :
     (minusFromAddress st v d c).1.reqs = st.reqs ∧ (minusFromAddress st v d c).1.susp = st.susp ∧
     (minusFromAddress st v d c).1.vstat = st.vstat ∧ (minusFromAddress st v d c).1.tracker = st.tracker ∧
     (minusFromAddress st v d c).1.bounty = st.bounty ∧ (minusFromAddress st v d c).1.delayed = st.delayed ∧
-    (minusFromAddress st v d c).1.db = st.db ∧ (minusFromAddress st v d c).1.committed = st.committed := by
+    (minusFromAddress st v d c).1.db = st.db := by
   unfold minusFromAddress
   simp only []
   split
@@ -286,7 +286,6 @@ theorem tallyOne_cases (F : FloatOps) (env : Env) (st : State) (del : List ReqId
         (tallyOne F env (st, del) id).1.susp = upsert st.susp ar.accused (byzRec env) ∧
         (tallyOne F env (st, del) id).1.vstat = st.vstat ∧
         (tallyOne F env (st, del) id).1.tracker = st.tracker ∧
-        (tallyOne F env (st, del) id).1.committed = st.committed ∧
         (tallyOne F env (st, del) id).1.db = st.db) := by
   unfold tallyOne
   simp only []
@@ -307,13 +306,13 @@ theorem tallyOne_cases (F : FloatOps) (env : Env) (st : State) (del : List ReqId
         right
         refine ⟨ar, v, rfl, hv, hp, ?_⟩
         simp only []
-        obtain ⟨h1, h2, h3, h4, h5, h6, h7, h8⟩ := minusFromAddress_fields
+        obtain ⟨h1, h2, h3, h4, h5, h6, h7⟩ := minusFromAddress_fields
           { st with susp := upsert st.susp ar.accused ⟨2, env.height, env.time, 0, none⟩ } ar.accused (slashAddr env ar.accused v)
           (F.penalty (getI st.total ar.accused) env.opts)
         generalize hm : minusFromAddress _ ar.accused (slashAddr env ar.accused v) _ = m at *
         obtain ⟨m1, m2⟩ := m
-        simp only at h1 h2 h3 h4 h5 h6 h7 h8
-        cases m2 <;> simp [h1, h2, h3, h4, h7, h8, byzRec]
+        simp only at h1 h2 h3 h4 h5 h6 h7
+        cases m2 <;> simp [h1, h2, h3, h4, h7, byzRec]
 
 
 
@@ -391,7 +390,7 @@ theorem tallyOne_guilty_freezes (F : FloatOps) (env : Env) (st : State) (del : L
 
 theorem tallyOne_static (F : FloatOps) (env : Env) (st : State) (del : List ReqId) (id : ReqId) :
     (tallyOne F env (st, del) id).1.vstat = st.vstat ∧ (tallyOne F env (st, del) id).1.tracker = st.tracker ∧
-    (tallyOne F env (st, del) id).1.committed = st.committed ∧ (tallyOne F env (st, del) id).1.db = st.db := by
+    (tallyOne F env (st, del) id).1.db = st.db := by
   rcases tallyOne_cases F env st del id with ⟨_, h⟩ | ⟨_, _, _, h⟩ | ⟨_, _, _, h⟩ | ⟨_, _, _, _, h⟩ | ⟨_, _, _, _, _, _, _, _, h⟩
   · rw [h]; simp
   · rw [h]; simp
@@ -536,7 +535,6 @@ theorem step_frozen_mono (st : State) (op : Op) (a : Addr) (hnr : NotRelease a o
   | beginBlock o h now cv prev => exact beginBlock_frozen_mono o h now cv prev st a hf
   | elect minSelf top h pop => exact Eq.trans (isFrozen_congr rfl a) hf
   | tally F env => exact tallyWith_frozen_mono F env _ _ st a hf
-  | commit => exact Eq.trans (isFrozen_congr rfl a) hf
 
 theorem run_frozen_mono (st : State) (ops : List Op) (a : Addr) (hnr : ∀ op, op ∈ ops → NotRelease a op)
     (hf : isFrozen st a = true) : isFrozen (run st ops) a = true := by
@@ -611,7 +609,6 @@ theorem step_votesNodup (st : State) (op : Op) (h : VotesNodup st) : VotesNodup 
   | tally F env =>
     intro p hp
     exact h p (tallyWith_reqs_mem F env _ _ st p hp)
-  | commit => exact h
 
 theorem run_votesNodup (st : State) (ops : List Op) (h : VotesNodup st) : VotesNodup (run st ops) := by
   induction ops generalizing st with
@@ -1059,7 +1056,6 @@ theorem step_byzSince (st : State) (op : Op) (a : Addr) (t0 : Int) (hnr : NotRel
         · intro s del id hs; exact tallyOne_byzSince F env s del id a t0 htf hs
         · exact byzSince_of_lookup (by rw [(cleanTrackerWith_fields _ st).1]) hb
     · rw [tallyWith_skipped F env _ _ st hact]; exact hb
-  | commit => exact byzSince_of_lookup rfl hb
 
 theorem run_byzSince (st : State) (ops : List Op) (a : Addr) (t0 : Int)
     (hops : ∀ op, op ∈ ops → NotRelease a op ∧ TimeFrom t0 op)
@@ -1202,7 +1198,6 @@ theorem step_trackerNodup (st : State) (op : Op) (h : st.tracker.Nodup) : (step 
       split
       · rw [hk]; exact h
       · exact h.sublist List.filter_sublist
-  | commit => exact h
 
 theorem run_trackerNodup (st : State) (ops : List Op) (h : st.tracker.Nodup) : (run st ops).tracker.Nodup := by
   induction ops generalizing st with
@@ -1237,6 +1232,142 @@ theorem beginBlock_of_sorted (o : Opts) (h now : Int) (cv : List (Addr × Int)) 
     beginBlock o h now cv prev st = if h ≤ o.blockVotesDiff then st else cv.foldl (beginStep o h now prev) st := by
   unfold beginBlock
   rw [List.mergeSort_of_pairwise hs]
+
+
+
+
+/-! ## at most one open request per accused address -/
+
+/-- the duplicate check of PerformAllegation sees every open request (d2f2af2), so no two open
+    requests are against the same address -/
+def OnePerAccused (st : State) : Prop :=
+  ∀ i j a b, alookup i st.reqs = some a → alookup j st.reqs = some b → a.accused = b.accused → i = j
+
+theorem onePerAccused_of_sub {st st' : State}
+    (hsub : ∀ i r, alookup i st'.reqs = some r → alookup i st.reqs = some r) (h : OnePerAccused st) :
+    OnePerAccused st' :=
+  fun i j a b ha hb => h i j a b (hsub i a ha) (hsub j b hb)
+
+theorem requestExists_false {st : State} {acc : Addr} (h : requestExists st acc = false) (j : ReqId) (b : Request)
+    (hb : alookup j st.reqs = some b) : b.accused ≠ acc := by
+  intro e
+  have := List.any_eq_false.mp h (j, b) (alookup_some_mem hb)
+  simp [e] at this
+
+theorem runAllege_onePerAccused (st : State) (h : Int) (rep acc : Addr) (id : ReqId) (bh : Int)
+    (hn : OnePerAccused st) : OnePerAccused (runAllege st h rep acc id bh).2 := by
+  unfold runAllege performAllegation
+  repeat' split
+  all_goals try exact hn
+  rename_i hbusy hex
+  have hbusy' : alookup id st.reqs = none := by
+    cases hl : alookup id st.reqs with
+    | none => rfl
+    | some r => simp [hl] at hbusy
+  have hex' : requestExists st acc = false := by simpa using hex
+  apply onePerAccused_of_sub (st := { st with reqs := upsert st.reqs id ⟨rep, acc, bh, 1, []⟩ })
+  · intro i r hr
+    simp only [cleanTracker, cleanTrackerWith] at hr
+    exact (cleanLoop_sub _ _ _).2 i r hr
+  · intro i j a b ha hb hab
+    simp only at ha hb
+    rw [alookup_upsert] at ha hb
+    by_cases hi : i = id <;> by_cases hj : j = id
+    · rw [hi, hj]
+    · simp [hi] at ha; simp [hj] at hb
+      subst ha
+      exact absurd hab.symm (requestExists_false hex' j b hb)
+    · simp [hi] at ha; simp [hj] at hb
+      subst hb
+      exact absurd hab (requestExists_false hex' i a ha)
+    · simp [hi] at ha; simp [hj] at hb
+      exact hn i j a b ha hb hab
+
+theorem castVote_onePerAccused (st : State) (id : ReqId) (voter : Addr) (c : Int) (hn : OnePerAccused st) :
+    OnePerAccused (castVote st id voter c).2 := by
+  unfold castVote
+  split
+  · exact hn
+  · rename_i ar har
+    repeat' split
+    all_goals try exact hn
+    have key : ∀ i a, alookup i (upsert st.reqs id { ar with votes := sortVotes (ar.votes ++ [⟨voter, c⟩]) }) = some a →
+        ∃ a0, alookup i st.reqs = some a0 ∧ a0.accused = a.accused := by
+      intro i a ha
+      rw [alookup_upsert] at ha
+      by_cases hi : i = id
+      · simp [hi] at ha; subst ha; exact ⟨ar, by rw [hi]; exact har, rfl⟩
+      · simp [hi] at ha; exact ⟨a, ha, rfl⟩
+    intro i j a b ha hb hab
+    obtain ⟨a0, ha0, ea⟩ := key i a ha
+    obtain ⟨b0, hb0, eb⟩ := key j b hb
+    exact hn i j a0 b0 ha0 hb0 (by rw [ea, eb]; exact hab)
+
+theorem tallyWith_reqs_sub (F : FloatOps) (env : Env) (o₁ o₂ : List ReqId) (st : State) (i : ReqId) (r : Request)
+    (h : alookup i (tallyWith F env o₁ o₂ st).reqs = some r) : alookup i st.reqs = some r := by
+  unfold tallyWith at h
+  split at h
+  · exact h
+  split at h
+  · exact h
+  · have key : ∀ q, alookup i (List.foldl (tallyOne F env) (cleanTrackerWith o₁ st, []) (sortIds o₂)).1.reqs = some q →
+        alookup i st.reqs = some q := by
+      have := tallyFold_inv F env (fun s => ∀ q, alookup i s.reqs = some q → alookup i st.reqs = some q)
+        (fun s del id hs q hq => hs q (tallyOne_reqs_sub F env s del id i q hq)) (sortIds o₂) (cleanTrackerWith o₁ st, [])
+        (fun q hq => (cleanLoop_sub _ _ _).2 i q hq)
+      exact this
+    simp only at h
+    split at h
+    · exact key r h
+    · exact key r h
+
+theorem step_onePerAccused (st : State) (op : Op) (h : OnePerAccused st) : OnePerAccused (step st op) := by
+  cases op with
+  | allege hh rep acc id bh sig fee =>
+    exact withAdmission_inv OnePerAccused st sig fee _ h (runAllege_onePerAccused st hh rep acc id bh h)
+  | vote id voter ch sig fee =>
+    apply withAdmission_inv OnePerAccused st sig fee _ h
+    unfold runVote
+    repeat' split
+    all_goals first | exact h | exact castVote_onePerAccused st id voter ch h
+  | release days val hh now sig fee =>
+    apply withAdmission_inv OnePerAccused st sig fee _ h
+    unfold handleRelease
+    repeat' split
+    all_goals exact h
+  | stake v s amt => simp only [step, runStake]; split <;> exact h
+  | unstake v s amt =>
+    simp only [step, runUnstake]
+    split
+    · exact h
+    · split
+      · exact h
+      · have := (minusFromAddress_fields st v s amt).1
+        generalize minusFromAddress st v s amt = m at *
+        obtain ⟨m1, m2⟩ := m
+        cases m2
+        · exact h
+        · exact onePerAccused_of_sub (fun i r hr => by simp only at this hr; rw [this] at hr; exact hr) h
+  | withdraw vals v s amt =>
+    simp only [step, runWithdraw]
+    repeat' split
+    all_goals exact h
+  | beginBlock o hh now cv prev =>
+    simp only [step, beginBlock]
+    split
+    · exact h
+    · apply foldl_inv _ OnePerAccused _ _ _ h
+      intro s p hs
+      unfold beginStep
+      repeat' split
+      all_goals exact hs
+  | elect minSelf top hh pop => exact h
+  | tally F env => exact onePerAccused_of_sub (fun i r hr => tallyWith_reqs_sub F env _ _ st i r hr) h
+
+theorem run_onePerAccused (st : State) (ops : List Op) (h : OnePerAccused st) : OnePerAccused (run st ops) := by
+  induction ops generalizing st with
+  | nil => exact h
+  | cons op rest ih => exact ih (step st op) (step_onePerAccused st op h)
 
 
 end OLP.Alleg
